@@ -3073,8 +3073,10 @@ class Entity(MutableMapping[str, str]):
         key = key.casefold()
         for k in self._keys:
             if k.casefold() == key:
-                # TODO: B909 bug?
-                return self._keys.pop(k)
+                value = self._keys[k]
+                # Delegate, so by_target and node IDs are updated and the classname is kept.
+                del self[k]
+                return value
         return default
 
     def clear(self) -> None:
